@@ -354,6 +354,30 @@ func TestC07(t *testing.T) {
 					}
 					c.alive = false
 					s.release(c.id, "mid-message-"+kind)
+					// whatever that connection's reader state released into the pools must be clean:
+					// a fresh takeover connection is opened at once and probed by a hostile peer
+					if rapid.Bool().Draw(rt, "probeRightAfter") && len(s.conns) < 10 {
+						m := c07Modes[0]
+						if rapid.Bool().Draw(rt, "probeAsClient") {
+							m = c07Modes[1]
+						}
+						f := s.openConn(rt, m)
+						dist := rapid.SampledFrom([]int{258, 300, 1000, 5000}).Draw(rt, "probeDist")
+						step("freshProbe(c%d,%s,dist=%d)", f.id, m.Name, dist)
+						f.lc.Peer.send(ref.Frame{Fin: true, Opcode: ref.OpBinary, Rsv1: true, Payload: ref.CraftBackref(dist)})
+						var leaked []byte
+						s.call(rt, "read of a crafted back-reference on a fresh connection", func() {
+							_, r, err := f.lc.C.Reader(context.Background())
+							if err != nil {
+								return
+							}
+							leaked, _ = io.ReadAll(r)
+						})
+						if len(leaked) > 0 {
+							rt.Fatalf("C07: fresh conn %d (%s): a stream that references data from before its own start was inflated to %d bytes: %x... - the pooled window still held another connection's data\nsteps: %v", f.id, m.Name, len(leaked), leaked[:min(16, len(leaked))], s.steps)
+						}
+						f.alive = false
+					}
 				},
 				"wsjson": func(rt *rapid.T) {
 					c := s.pick(rt, func(c *c07Conn) bool { return c.alive && c.cur == nil && len(c.pending) == 0 })
